@@ -8,6 +8,7 @@ package breaker
 import (
 	"context"
 	"errors"
+	"time"
 
 	rt "github.com/zeromicro/go-zero/internal/verifrt"
 )
@@ -215,4 +216,45 @@ func Verif_C01_WindowSummary() {
 	rt.Assert(h.accepts == wantAcc, "the window summary's accepts is the sum of the recorded successes")
 	rt.Assert(h.total == wantTotal, "the window summary's total is the sum of all recorded calls")
 	rt.Assert(h.failingBuckets >= 0 && h.failingBuckets <= buckets && h.workingBuckets >= 0 && h.workingBuckets <= buckets, "bucket streak counters stay within 0..40")
+}
+
+//verif:entry native tier=quick,thorough steps=3000000 cover=fresh,overlap,idle
+//verif:doc the 10 s window over time gaps from 0 to several windows: 2 failures are recorded, the clock advances by a gap from {0, 5, 9.75, 10, 10.25, 25, 45} s, 3 more failures are recorded, the clock advances by a second gap from {0, 0.25, 5, 9.75, 10, 12} s, then the window summary is read: it counts exactly the calls recorded during the preceding 10 s (bucket granularity 250 ms, the oracle recomputes bucket indices from the clock), in particular all b recent ones however long the breaker was idle before.
+func Verif_C01_IdleGap() {
+	gb := newGoogleBreaker()
+	t0 := rt.Now()
+	a, b := int64(2), int64(3)
+	for i := int64(0); i < a; i++ {
+		gb.markFailure()
+	}
+	const bucket = int64(250 * time.Millisecond)
+	// gaps in whole buckets (sub-bucket offsets and arbitrary instants are C16's subject)
+	gap1 := []int64{0, 20, 39, 40, 41, 100, 180}[rt.Choose("gap1", 7)] * bucket
+	rt.Advance(gap1)
+	t1 := rt.Now()
+	for i := int64(0); i < b; i++ {
+		gb.markFailure()
+	}
+	gap2 := []int64{0, 1, 20, 39, 40, 48}[rt.Choose("gap2", 6)] * bucket
+	rt.Advance(gap2)
+	h := gb.history()
+	// bucket index of an instant relative to construction, window = the last 40 buckets incl. the current
+	nowIdx := (rt.Now() - t0) / bucket
+	idxA, idxB := int64(0), (t1-t0)/bucket
+	var want int64
+	if nowIdx-idxA < buckets {
+		want += a
+	}
+	if nowIdx-idxB < buckets {
+		want += b
+		rt.Cover("fresh")
+	}
+	if nowIdx-idxA < buckets && gap1 > 0 {
+		rt.Cover("overlap")
+	}
+	if gap1 >= 2*buckets*bucket {
+		rt.Cover("idle")
+	}
+	rt.Assert(h.total == want, "the window summary counts exactly the calls recorded during the preceding 10 s, however long the breaker was idle before")
+	rt.Assert(h.accepts == 0, "failures are never counted as accepted")
 }
